@@ -405,6 +405,7 @@ const JS_LINES: &[&str] = &[
   "var c = [b,\n  a];\n",
   "\n",
   "var é = 'x'; var d = 2\n",
+  "try { foo(1) } finally { f(a, b) }\n",
   // syntax errors: `kind: ERROR` rules are the documented way to flag them
   "let q = = 1;\n",
   "foo(1,, 2;\n",
@@ -1111,11 +1112,16 @@ fn findings_case(v: &Variant, yamls: &[String], srcs: &[String]) -> Option<Vec<F
         k.sort();
         k
       };
-      let ms: Vec<Value> = grep
-        .root()
-        .find_all(&r.matcher)
-        .map(|nm| json!({"n": [nm.range().start, nm.range().end], "env": env_json(nm.get_env())}))
-        .collect();
+      // (a rule written for another language says nothing about a JavaScript document)
+      let ms: Vec<Value> = if r.language != SupportLang::JavaScript {
+        vec![]
+      } else {
+        grep
+          .root()
+          .find_all(&r.matcher)
+          .map(|nm| json!({"n": [nm.range().start, nm.range().end], "env": env_json(nm.get_env())}))
+          .collect()
+      };
       rj.push(json!({"id": r.id, "sev": sev_name(&r.severity), "msg": r.message, "note": r.note, "keys": keys,
         "fix": r.matcher.fixer.is_some(), "ms": ms}));
     }
@@ -1225,6 +1231,17 @@ pub fn frontends_findings(ctx: &Ctx, rng: &mut Rng, o: &mut Out) {
     }
     if i == 0 {
       yamls = PLAIN_RULES.iter().map(|s| s.to_string()).collect();
+    }
+    // a rule for ANOTHER language at the end of the rule set (never first: stdin is read in the
+    // language of the first rule): it applies to none of the JavaScript texts, through any front
+    // end — its kind ids belong to another grammar (TypeScript `debugger` = JavaScript `finally`)
+    if i % 3 == 1 {
+      let foreign = [
+        "id: rts\nlanguage: TypeScript\nseverity: warning\nmessage: ts only\nrule: {pattern: debugger}\n",
+        "id: rts\nlanguage: TypeScript\nseverity: error\nmessage: ts only\nrule: {kind: debugger_statement}\n",
+        "id: rts\nlanguage: Tsx\nseverity: warning\nmessage: tsx only\nrule: {pattern: debugger}\nfix: ''\n",
+      ];
+      yamls.push(rng.pick(&foreign).to_string());
     }
     let srcs: Vec<String> = (0..4).map(|_| gen_src(rng)).collect();
     let Some(obs) = findings_case(&v, &yamls, &srcs) else {
